@@ -1,5 +1,5 @@
 """C02 — decoder results do not depend on how input and output are chunked (structural clauses D1–D6)."""
-import t_dst, r_account, r_preamble, r_resume, r_iso, r_inv
+import t_dst, r_account, r_preamble, r_resume, r_iso, r_inv, r_inputempty
 import p_c10
 
 MANIFEST = {
@@ -34,6 +34,8 @@ def run(rep, facts, tier):
         rep.floor('R-ACCOUNT', 'decoder bodies with unit fetches', nb, 16, c)
         rep.floor('R-ACCOUNT.sites', 'unit fetch sites', ng, 50, c)
         r_preamble.run(rep, f, c, 'R-PREAMBLE')
+        n = r_inputempty.run(rep, f, c, 'R-INPUTEMPTY', lambda nm: 'Decoder::' in nm or nm.startswith(('handles::Utf16Destination', 'handles::Utf8Destination', 'handles::convert_unaligned')))
+        rep.floor('R-INPUTEMPTY', 'InputEmpty constructions (decoders)', n, 40, c)
         r_resume.run(rep, f, c, 'R-RESUME')
         for sink in ('utf8', 'utf16'):
             p_c10.helpers(rep, f, c, sink)
